@@ -298,6 +298,13 @@ pub struct Doc {
     pub style: Option<String>,
     #[serde(default)]
     pub doctype: bool,
+    /// where the `<style>` element goes: 0 in `<head>`, 1 first in `<body>`, 2 after the first
+    /// block, 3 at the end of the body, 4 first in the body inside a `<div>`
+    #[serde(default)]
+    pub style_place: u8,
+    /// a second `<style>` element at the end of the body
+    #[serde(default, skip_serializing_if = "Option::is_none")]
+    pub style2: Option<String>,
 }
 
 // ---------------------------------------------------------------------------------------------
@@ -557,6 +564,8 @@ impl Doc {
             blocks,
             style: None,
             doctype: false,
+            style_place: 0,
+            style2: None,
         }
     }
     /// Serialise; returns the HTML and the number of labels used.
@@ -566,13 +575,39 @@ impl Doc {
             s.out.push_str("<!DOCTYPE html>");
         }
         if let Some(st) = &self.style {
-            s.out.push_str("<html><head><style>");
-            s.out.push_str(st);
-            s.out.push_str("</style></head><body>");
-        }
-        s.blocks(&self.blocks);
-        if self.style.is_some() {
+            let el = format!("<style>{}</style>", st);
+            match self.style_place % 5 {
+                0 => {
+                    s.out.push_str(&format!("<html><head>{}</head><body>", el));
+                    s.blocks(&self.blocks);
+                }
+                1 => {
+                    s.out.push_str(&format!("<html><head></head><body>{}", el));
+                    s.blocks(&self.blocks);
+                }
+                2 => {
+                    s.out.push_str("<html><head></head><body>");
+                    let k = 1.min(self.blocks.len());
+                    s.blocks(&self.blocks[..k]);
+                    s.out.push_str(&el);
+                    s.blocks(&self.blocks[k..]);
+                }
+                3 => {
+                    s.out.push_str("<html><head></head><body>");
+                    s.blocks(&self.blocks);
+                    s.out.push_str(&el);
+                }
+                _ => {
+                    s.out.push_str(&format!("<html><head></head><body><div>{}</div>", el));
+                    s.blocks(&self.blocks);
+                }
+            }
+            if let Some(st2) = &self.style2 {
+                s.out.push_str(&format!("<style>{}</style>", st2));
+            }
             s.out.push_str("</body></html>");
+        } else {
+            s.blocks(&self.blocks);
         }
         (s.out, s.next)
     }
